@@ -221,6 +221,16 @@ def run(ck, with_order=True):
                 blocked.add(e)
     an = ranges.Analyzer(prog)
     found = []
+    # the frozen line as try_apply_hunk receives it: a parameter of that name, or a variable of that name copied out of a parameter
+    fl2 = [l for l, nm in tah.names.items() if nm == "last_frozen_line"]
+    frozen_local = None
+    for l in fl2:
+        if l <= tah.arg_count:
+            frozen_local = l
+        else:
+            e_ = df.operand_expr(tah, {"k": "copy", "pl": {"l": l}})
+            if df.mentions(e_, lambda x: isinstance(x, tuple) and x and x[0] == "param"):
+                frozen_local = l
 
     cores = []
 
@@ -228,7 +238,19 @@ def run(ck, with_order=True):
         if fn.id == tah.id and s["rv"]["k"] == "agg" and s["rv"].get("variant") == "Applied":
             op = s["rv"]["ops"][s["rv"]["fields"].index("line")]
             t = an_.canon(st_, an_.term_of(fn, op, st_))
-            frozen = ("v", "L6")
+            frozen = None
+            if frozen_local is not None:
+                src = {"l": frozen_local}
+                if frozen_local > fn.arg_count:
+                    # a variable copied out of a parameter once: the parameter's field is what stays known (the copy is dead by now)
+                    one = df.defs_of(fn).single(frozen_local)
+                    if one and one[0] == "stmt" and one[3]["rv"]["k"] == "use" and one[3]["rv"]["op"].get("k") in ("copy", "move"):
+                        src = one[3]["rv"]["op"]["pl"]
+                ft = an_.canon(st_, an_.term_of(fn, {"k": "copy", "pl": src}, st_))
+                frozen = ft[0] if ft is not None and ft[1] == 0 else None
+            if frozen is None:
+                found.append((False, "the frozen line is not a tracked value", s))
+                return
             if t is None:
                 found.append((False, "position is not a tracked value", s))
                 return
@@ -249,8 +271,8 @@ def run(ck, with_order=True):
                     rel = an_.explain(st_, frozen, S)
             cores.append((okc, rel, s))
     an.stmt_probe = probe
-    ck.require(tah.arg_count >= 6 and tah.local_name(6) == "last_frozen_line", rule, "try_apply_hunk receives the frozen line",
-               "parameter 6 of try_apply_hunk is %s" % (tah.local_name(6) if tah.arg_count >= 6 else None), tah.where())
+    ck.require(frozen_local is not None, rule, "try_apply_hunk receives the frozen line",
+               "try_apply_hunk has no parameter (or field of a parameter, copied into a variable) named last_frozen_line", tah.where())
     an.analyze(tah, blocked_edges=blocked)
     ck.floor(rule, "Applied constructions analysed", len(found), 1)
     for okc, rel, s in cores:
